@@ -470,6 +470,104 @@ fn scan_vs_stream(rounds: u64) -> Result<String, String> {
     Ok(format!("{} rounds", rounds))
 }
 
+/// A `lock_all_entries` stream that is handed a key without a value (it gives it up again without yielding it) racing
+/// with `try_lock`s of that key by other threads (which fail while the stream has it and then run their clean-up):
+/// whoever lets go of the entry last has to remove it, and afterwards `into_entries_unordered` must find a clean map.
+/// A fresh key every round. (Seeded change C12-e: the stream's future dropped its key guard only after it had released
+/// the global lock.)
+fn stream_vs_try(rounds: u64) -> Result<String, String> {
+    use futures::future::FutureExt;
+    use futures::stream::StreamExt;
+    const TRIERS: usize = 4;
+    let map: Arc<LockableHashMap<u64, u64>> = Arc::new(LockableHashMap::new());
+    for k in 1..=3u64 {
+        map.blocking_lock(k, SyncLimit::no_limit()).map_err(|_| "err")?.insert(k * 10);
+    }
+    let round_no = Arc::new(AtomicU64::new(0));
+    let finished = Arc::new(AtomicU64::new(0));
+    let stop = Arc::new(AtomicBool::new(false));
+    let mut hs = vec![];
+    for _ in 0..TRIERS {
+        let (map, round_no, finished, stop) = (map.clone(), round_no.clone(), finished.clone(), stop.clone());
+        hs.push(std::thread::spawn(move || {
+            let mut seen = 0u64;
+            loop {
+                let r = round_no.load(Ordering::SeqCst);
+                if stop.load(Ordering::SeqCst) {
+                    return;
+                }
+                if r == seen {
+                    std::hint::spin_loop();
+                    continue;
+                }
+                seen = r;
+                drop(map.try_lock(1000 + r, SyncLimit::no_limit()).unwrap());
+                finished.fetch_add(1, Ordering::SeqCst);
+            }
+        }));
+    }
+    let mut failure = None;
+    for r in 1..=rounds {
+        let key = 1000 + r;
+        let guard = map.blocking_lock(key, SyncLimit::no_limit()).map_err(|_| "err")?;
+        let mut stream = Box::pin(map.lock_all_entries().now_or_never().ok_or("lock_all_entries waited")?);
+        // poll until the stream waits for `key` only (it yields the three valued entries first)
+        let mut yielded = vec![];
+        while let Some(Some(g)) = stream.next().now_or_never() {
+            yielded.push(g);
+        }
+        drop(yielded);
+        drop(guard); // hands the key to the stream
+        round_no.store(r, Ordering::SeqCst);
+        let mut rest = vec![];
+        loop {
+            match stream.next().now_or_never() {
+                Some(Some(g)) => rest.push(g),
+                Some(None) => break,
+                None => std::hint::spin_loop(),
+            }
+        }
+        drop(rest);
+        drop(stream);
+        let t0 = std::time::Instant::now();
+        while finished.load(Ordering::SeqCst) < r * TRIERS as u64 {
+            if t0.elapsed() > Duration::from_secs(30) {
+                failure = Some(format!("round {}: a try_lock did not come back", r));
+                break;
+            }
+            std::hint::spin_loop();
+        }
+        if failure.is_some() {
+            break;
+        }
+        let n = map.num_entries_or_locked();
+        if n != 3 {
+            failure = Some(format!(
+                "round {}: nobody holds or awaits key {} and it never had a value, but the map reports {} entries (keys {:?})",
+                r, key, n, map.keys_with_entries_or_locked()
+            ));
+            break;
+        }
+    }
+    stop.store(true, Ordering::SeqCst);
+    for h in hs {
+        h.join().map_err(|_| "a try_lock thread panicked".to_string())?;
+    }
+    let map = Arc::try_unwrap(map).map_err(|_| "the map is still shared".to_string())?;
+    let consumed = std::panic::catch_unwind(std::panic::AssertUnwindSafe(move || {
+        let mut v: Vec<(u64, u64)> = map.into_entries_unordered().collect();
+        v.sort();
+        v
+    }));
+    match (failure, consumed) {
+        (Some(f), Ok(_)) => Err(f),
+        (Some(f), Err(_)) => Err(format!("{}; and into_entries_unordered panicked", f)),
+        (None, Err(_)) => Err("into_entries_unordered panicked".into()),
+        (None, Ok(v)) if v != vec![(1, 10), (2, 20), (3, 30)] => Err(format!("into_entries_unordered returned {:?}", v)),
+        (None, Ok(_)) => Ok(format!("{} rounds", rounds)),
+    }
+}
+
 fn wakeup() -> Result<String, String> {
     let map: Arc<LockableHashMap<u64, u64>> = Arc::new(LockableHashMap::new());
     for round in 0..20 {
@@ -519,6 +617,7 @@ fn main() {
     with_watchdog("pool-try-race", 120, move || pool_try_race(iters * 250));
     with_watchdog("map-races", 180, move || map_races(iters * 100));
     with_watchdog("scan-vs-stream", 180, move || scan_vs_stream(iters / 4));
+    with_watchdog("stream-vs-try", 180, move || stream_vs_try(iters * 5));
     with_watchdog("wakeup", 120, wakeup);
     println!("SMOKE OK");
 }
